@@ -410,7 +410,7 @@ class Ops:
                     return TRUE, vv
                 if z3.is_false(z3.simplify(c)):
                     continue
-                if isinstance(vv, (SList, SSet, SDict, SObj, SFunc)) and not self.I.pure:
+                if isinstance(vv, (SList, SSet, SDict, SObj, SFunc, SClass)) and not self.I.pure:
                     # container-valued entry under a symbolic key: decide the key by forking
                     if self.st.branch(c):
                         return TRUE, vv
